@@ -147,7 +147,15 @@ func VerifyFunc(w *World, key string, c *Contract) (rep *FuncReport) {
 	in.obls = append(in.obls, &Obligation{Name: key + "#pre-sat", Func: key, Kind: "presat", Pos: w.Fset.Position(fd.Pos()),
 		Hyps: append([]Term(nil), st.hyps...), Goal: TFalse, Expect: "sat", Text: "requires is satisfiable"})
 	f.entry = st.clone()
+	in.entryCellN = in.cellN
 	outs := f.execBlock(fd.Body.List, st)
+	// every `at call N assert` must have been generated at least once: an ordinal that matches no
+	// reachable call would otherwise drop the assertion silently
+	for ord := range c.Asserts {
+		if !f.assertHit[ord] {
+			panic(&Unsupported{Msg: fmt.Sprintf("contract of %s: `at call %d assert` matches no call reached by the symbolic execution", key, ord)})
+		}
+	}
 	retIdx := 0
 	for _, o := range outs {
 		var rets []Val
@@ -280,6 +288,9 @@ func (f *Frame) checkGhostFrame(c *Contract, env *SpecEnv, st *State, retIdx int
 		cl := in.dbCells[k]
 		if allowed[cl] {
 			continue
+		}
+		if owner := in.ghostOwner[cl]; owner != nil && owner.ID > in.entryCellN {
+			continue // ghost state of an object allocated by this call: invisible to the caller
 		}
 		now, had := st.store[cl]
 		if !had {
